@@ -255,6 +255,19 @@ func ttlPastUnits() []unit {
 	return variantUnits("ttl-in-the-past", "ttlpast", n, rigOpts{ttlPast: true}, []string{defaultNonNum})
 }
 
+// ---- a metric that runs out between the monitor's answer and its use --------
+
+func expireDuringUnits() []unit {
+	n := 2
+	if ev.Thorough() {
+		n = 3
+	}
+	s := R.Sec("expires-during-allocation")
+	s.Bounds["peers"] = fmt.Sprintf("1..%d, full alphabet", n)
+	s.Bounds["what"] = "the monitor answers 2s (fake clock) after compiling its list; an 'expired' metric is logged with 1s to live right before every case, so it passes the monitor's check and has run out when the allocator ranks the candidates. Cases in which such a peer is a current holder are left out: whether a holder whose metric runs out during the call is 'still healthy' depends on the instant one looks, and the text does not say"
+	return variantUnits("expires-during-allocation", "expire-during", n, rigOpts{expireDuring: true}, []string{defaultNonNum})
+}
+
 func variantUnits(sec, variant string, maxN int, base rigOpts, nns []string) []unit {
 	var units []unit
 	for n := 1; n <= maxN; n++ {
@@ -344,10 +357,13 @@ func independence(t *testing.T) {
 			name: fmt.Sprintf("indep-%d", i),
 			opts: s.opts,
 			body: func(r *rig) {
-				if r.dry {
+				if r.dry || skipCase(r.opts, s.c) {
 					return
 				}
 				r.setMetrics(s.c.N, s.c.St, s.nn)
+				if r.opts.expireDuring {
+					r.refreshExpiring(s.c.N)
+				}
 				o := r.run(s.c)
 				r.report("independence", s.c, o)
 				// (cases on which the oracle already fires are reported as
